@@ -248,6 +248,23 @@ func VerifH_EndToEndStream() {
 		vrt.Cover("e2es-error")
 	case 3:
 		vrt.Assert(!done && h.started && !h.returned, "client and handler are both waiting")
+		if vrt.Bool("abruptDisconnect") {
+			// the network drops: the client's transport dies under it
+			trC.Close()
+			vrt.Quiesce()
+			vrt.Assert(done && rerr != nil, "a transport failure fails the pending client call")
+			vrt.Assert(h.returned && h.recvErrSet && h.ctxDone, "the disconnect reaches the peer: its handler is released and its stream context cancelled")
+			vrt.Assert(hx.IsClosedCh(conn.Closed()), "the client connection reports itself closed")
+			vrt.Quiesce()
+			vrt.Assert(serveDone, "the server side tears down")
+			cd := false
+			go func() { conn.Close(); cd = true }()
+			vrt.Quiesce()
+			vrt.Assert(cd, "Close after the failure returns")
+			vrt.Assert(vrt.Unfinished() == 0, "no goroutine is left on either side")
+			vrt.Cover("e2es-disconnect")
+			return
+		}
 		ctx.Cancel(context.Canceled)
 		vrt.Quiesce()
 		vrt.Assert(done && rerr == context.Canceled, "the cancelled client call returns the context's error")
